@@ -35,6 +35,12 @@ func (e *Engine) trustedCall(callee *ssa.Function, args []Val, st *State, reach 
 			return IntV{"(str.indexof " + s.T + " (str.from_code " + termOf(args[1]) + ") 0)"}, true
 		}
 	}
+	if pkg == "strconv" && callee.Name() == "Itoa" && !e.bv() && len(args) == 1 {
+		// strconv.Itoa(n): the decimal digits of n (SMT-LIB str.from_int is defined for n >= 0; negative: "-" + digits)
+		if n, ok := args[0].(IntV); ok {
+			return StrV{"(ite (>= " + n.T + " 0) (str.from_int " + n.T + ") (str.++ \"-\" (str.from_int (- " + n.T + "))))"}, true
+		}
+	}
 	if pkg == "bytes" && callee.Name() == "Equal" && !e.bv() && len(args) == 2 {
 		if v, ok := e.bytesEqual(st, args[0], args[1]); ok {
 			return v, true
